@@ -1,7 +1,7 @@
 (* Reach.v — the invariant holds in every world reachable by any program under any script. *)
 From Coq Require Import Arith ZArith Lia.
 From Minimq Require Import Util Bytes Varint Utf8 Props Ser De Reader Arena Core Show Machine Parse Run.
-From Minimq Require Import Lts Refine ArenaLemmas SerLemmas ArenaOps Inv.
+From Minimq Require Import Lts Refine ArenaLemmas SerLemmas ArenaOps Inv Quota.
 
 Lemma Inv_step : forall s l s', sstep s l s' -> Inv s -> Inv s'.
 Proof.
@@ -23,125 +23,183 @@ Proof.
   - now apply Inv_pid.
 Qed.
 
+Lemma Inv_sreach : forall s s', sreach s s' -> Inv s -> Inv s'.
+Proof. intros s s' [ls H]. eapply spath_inv; [|exact H]. intros. eapply Inv_step; eassumption. Qed.
+
 Lemma Inv_wq : forall w w', wq w w' -> Inv (w_sess w) -> Inv (w_sess w').
+Proof. intros w w' H. apply Inv_sreach. now apply wq_sreach. Qed.
+
+(* a successful resumed CONNACK does not touch the outbound state *)
+Lemma connack_resumed_ob : forall s p now s', connack_process s p now = (s', CAOk true) -> s_ob s' = s_ob s.
 Proof.
-  intros w w' H. unfold wq in H. eapply qreach_inv; [|exact H]. intros. eapply Inv_step; eassumption.
+  intros s p now s' H. unfold connack_process in H. destruct p as [p|]; [|inversion H]. destruct p; try (inversion H; fail).
+  destruct (negb (rc_success rc)); [inversion H|].
+  destruct (connack_props _ _ _); [|inversion H]. destruct sp; inversion H; subst. reflexivity.
 Qed.
 
-(* connect: quiet steps, then possibly one CONNACK step, then quiet steps *)
-Lemma op_connect_reach : forall fuel w, sreach (w_sess w) (w_sess (fst (op_connect fuel w))).
+(* connect: the same statement as for every other operation - a path of LTS steps whose environment flags are
+   exactly what the ghost flag of the world records *)
+Lemma op_connect_wq : forall fuel w, wq w (fst (op_connect fuel w)).
 Proof.
   intros fuel w. unfold op_connect.
   set (s0 := w_sess w).
   set (s1 := set_ob (set_rt (set_reader s0 (reader_reset (s_reader s0))) (reset_transport (s_rt s0))) (arm_replay (s_ob s0))).
   set (s2 := set_ob s1 (compact (s_ob s1))).
-  assert (R02 : sreach s0 s2).
-  { eapply sreach_trans; [eapply sreach_step; apply (SS_reader s0 (reader_reset (s_reader s0)))|].
-    eapply sreach_trans; [eapply sreach_step; apply SS_reset_transport|].
-    eapply sreach_trans; [eapply sreach_step; apply SS_arm_replay|].
-    eapply sreach_step. apply (SS_compact s1). }
+  assert (Hstep1 : forall (x : world) (s' : session) (l : slabel),
+            sstep (w_sess x) l s' -> label_ok l = true -> wq x (upd_sess x s')).
+  { intros x s' l Hs Hl. eapply wq_step; [wsimpl; exact Hs | exact Hl | reflexivity]. }
+  set (sa := set_reader s0 (reader_reset (s_reader s0))).
+  set (sb := set_rt sa (reset_transport (s_rt s0))).
+  assert (R02 : wq w (upd_sess w s2)).
+  { eapply (wq_trans _ (upd_sess w sa)); [apply (Hstep1 w sa LOther); [apply SS_reader|reflexivity]|].
+    eapply (wq_trans _ (upd_sess w sb)); [apply (Hstep1 (upd_sess w sa) sb LOther); [apply (SS_reset_transport sa)|reflexivity]|].
+    eapply (wq_trans _ (upd_sess w s1)); [apply (Hstep1 (upd_sess w sb) s1 LOther); [apply (SS_arm_replay sb)|reflexivity]|].
+    apply (Hstep1 (upd_sess w s1) s2 LOther); [apply (SS_compact s1)|reflexivity]. }
   change (set_ob s1 (compact (s_ob s1))) with s2.
-  destruct (enc_connect _ _) as [off bs|e]; cbn [fst upd_sess w_sess]; [|exact R02].
+  destruct (enc_connect _ _) as [off bs|e]; cbn [fst]; [|exact R02].
   unfold direct_send.
   pose proof (write_all_wq fuel bs (upd_sess w s2)) as Hw.
   destruct (write_all fuel bs (upd_sess w s2)) as [w3 r3]. cbn [fst] in Hw.
-  assert (R3 : sreach s0 (w_sess w3)).
-  { eapply sreach_trans; [exact R02|]. destruct Hw as [ls [Hp _]]. exists ls. exact Hp. }
+  assert (R3 : wq w w3) by (eapply wq_trans; eassumption).
   destruct r3; cbn [bindu fst]; try exact R3.
-  pose proof (io_flush_sess w3) as [Hf _]. destruct (io_flush w3) as [w4 fr]. cbn [fst] in Hf.
-  destruct fr; cbn [bindu fst]; try (rewrite Hf; exact R3).
+  pose proof (io_flush_sess w3) as Hf. destruct (io_flush w3) as [w4 fr]. cbn [fst] in Hf.
+  assert (R4 : wq w w4) by (eapply wq_trans; [exact R3 | apply wq_same; exact Hf]).
+  destruct fr; cbn [bindu fst]; try exact R4.
   cbv beta zeta.
   set (w5 := upd_sess w4 (set_rt (w_sess w4) (rt_with_timers (s_rt (w_sess w4)) None None))).
-  assert (R5 : sreach s0 (w_sess w5)).
-  { eapply sreach_trans; [exact R3|]. unfold w5. cbn [w_sess upd_sess]. rewrite Hf.
-    eapply sreach_step. apply SS_rt_timers. }
+  assert (R5 : wq w w5).
+  { eapply wq_trans; [exact R4|]. unfold w5. qstep0. }
   pose proof (fill_wq fuel None w5) as Hfill. destruct (fill_packet_reader fuel None w5) as [w6 fr6]. cbn [fst] in Hfill.
-  assert (R6 : sreach s0 (w_sess w6)).
-  { eapply sreach_trans; [exact R5|]. destruct Hfill as [ls [Hp _]]. exists ls. exact Hp. }
-  assert (Rhd : forall w', sreach s0 (w_sess w') -> sreach s0 (w_sess (sess_hd w'))).
-  { intros w' Hr. eapply sreach_trans; [exact Hr|]. cbn [sess_hd w_sess upd_sess]. eapply sreach_step. apply SS_hd. }
+  assert (R6 : wq w w6) by (eapply wq_trans; eassumption).
+  assert (Rhd : forall w', wq w w' -> wq w (sess_hd w')).
+  { intros w' Hr. eapply wq_trans; [exact Hr|]. qstep0. }
   destruct fr6; cbn [fst]; try exact R6; try (apply Rhd; exact R6).
   destruct (take_packet (s_reader (w_sess w6))) as [[[r' pl] p]|]; cbn [fst]; [|apply Rhd; exact R6].
-  assert (R7 : sreach s0 (set_reader (w_sess w6) r')).
-  { eapply sreach_trans; [exact R6|]. eapply sreach_step. apply SS_reader. }
-  destruct (connack_process (set_reader (w_sess w6) r') p (w_now w6)) as [s8 cr] eqn:Ec.
-  assert (R8 : sreach s0 s8).
-  { eapply sreach_trans; [exact R7|]. replace s8 with (fst (connack_process (set_reader (w_sess w6) r') p (w_now w6))) by now rewrite Ec.
-    eapply sreach_step. apply SS_connack. }
-  destruct cr as [resumed|e d]; cbn [fst w_sess upd_sess upd_envok]; [exact R8|].
-  destruct d; cbn [fst w_sess upd_sess]; [|exact R8].
-  eapply sreach_trans; [exact R8|]. cbn [sess_hd w_sess upd_sess]. eapply sreach_step. apply SS_hd.
+  set (s7 := set_reader (w_sess w6) r').
+  assert (R7 : wq w (upd_sess w6 s7)) by (eapply wq_trans; [exact R6|]; qstep0).
+  destruct (connack_process s7 p (w_now w6)) as [s8 cr] eqn:Ec.
+  pose proof (SS_connack s7 p (w_now w6)) as Hstep. unfold connack_label in Hstep. rewrite Ec in Hstep. cbn [fst snd] in Hstep.
+  destruct cr as [resumed|e d]; cbn [fst].
+  - eapply wq_trans; [exact R7|].
+    exists (label_ok (LConnack resumed (if resumed then unresolved_publishes (s_ob s7) else 0) (rt_maxquota (s_rt s8)))).
+    split; [wsimpl; apply ereach_step; exact Hstep|].
+    wsimpl. cbn [label_ok]. destruct resumed; [|reflexivity].
+    now rewrite (connack_resumed_ob _ _ _ _ Ec).
+  - assert (R8 : wq w (upd_sess w6 s8)).
+    { eapply wq_trans; [exact R7|]. eapply wq_step; [wsimpl; exact Hstep|reflexivity|reflexivity]. }
+    destruct d; [apply Rhd; exact R8 | exact R8].
 Qed.
 
-Lemma Inv_sreach : forall s s', sreach s s' -> Inv s -> Inv s'.
-Proof. intros s s' [ls H]. eapply spath_inv; [|exact H]. intros. eapply Inv_step; eassumption. Qed.
+(* ---------- every action of a program is a path of the LTS ---------- *)
+Lemma feed_same : forall w d b, w_sess (feed w d b) = w_sess w /\ w_envok (feed w d b) = w_envok w.
+Proof. intros. unfold feed. destruct b; split; reflexivity. Qed.
 
-Definition wsess_eq (w w' : world) : Prop := w_sess w' = w_sess w.
+Lemma record_op_same : forall w o, w_sess (record_op w o) = w_sess w /\ w_envok (record_op w o) = w_envok w.
+Proof. intros. unfold record_op. destruct o as [[h|]| | | |]; split; reflexivity. Qed.
 
-Lemma feed_sess : forall w d b, w_sess (feed w d b) = w_sess w.
-Proof. intros. unfold feed. destruct b; reflexivity. Qed.
-
-Lemma record_op_sess : forall w o, w_sess (record_op w o) = w_sess w.
-Proof. intros. unfold record_op. destruct o as [[h|]| | | |]; reflexivity. Qed.
-
-Lemma fold_feed_sess : forall chunks w, w_sess (fold_left (fun w c => feed w (fst c) (snd c)) chunks w) = w_sess w.
-Proof. induction chunks as [|c t IH]; intros w; cbn [fold_left]; [reflexivity|]. rewrite IH. apply feed_sess. Qed.
-
-(* every action keeps the invariant *)
-Lemma run_action_Inv : forall a w, Inv (w_sess w) -> Inv (w_sess (run_action a w)).
+Lemma fold_feed_same : forall chunks w,
+  w_sess (fold_left (fun w c => feed w (fst c) (snd c)) chunks w) = w_sess w /\
+  w_envok (fold_left (fun w c => feed w (fst c) (snd c)) chunks w) = w_envok w.
 Proof.
-  intros a w H. destruct a; cbn [run_action].
-  - (* connect *)
-    match goal with |- context [op_connect FUEL ?x] => set (w1 := x) end.
-    assert (H1 : Inv (w_sess w1)).
-    { unfold w1. rewrite fold_feed_sess. exact H. }
-    pose proof (op_connect_reach FUEL w1) as Hr. destruct (op_connect FUEL w1) as [w2 r]. cbn [fst] in Hr.
-    pose proof (Inv_sreach _ _ Hr H1) as H2. destruct r; exact H2.
-  - destruct (negb (w_conn w)); [exact H|].
+  induction chunks as [|c t IH]; intros w; cbn [fold_left]; [split; reflexivity|].
+  destruct (IH (feed w (fst c) (snd c))) as [H1 H2]. destruct (feed_same w (fst c) (snd c)) as [H3 H4].
+  rewrite H1, H2. split; assumption.
+Qed.
+
+Lemma wq_log : forall w w' l, wq w w' -> wq w (upd_log w' l).
+Proof. intros w w' l H. eapply wq_trans; [exact H|]. apply wq_same. split; reflexivity. Qed.
+
+Lemma run_action_wq : forall a w, wq w (run_action a w).
+Proof.
+  intros a w. destruct a; cbn [run_action].
+  - match goal with |- context [op_connect FUEL ?x] => set (w1 := x) end.
+    assert (H1 : wq w w1).
+    { apply wq_same. unfold w1.
+      match goal with |- context [fold_left ?f chunks ?x] => destruct (fold_feed_same chunks x) as [F1 F2] end.
+      rewrite F1, F2. split; reflexivity. }
+    pose proof (op_connect_wq FUEL w1) as Hr. destruct (op_connect FUEL w1) as [w2 r]. cbn [fst] in Hr.
+    apply wq_log. eapply wq_trans; [exact H1|]. eapply wq_trans; [exact Hr|].
+    destruct r; apply wq_same; split; reflexivity.
+  - destruct (negb (w_conn w)); [apply wq_log, wq_refl|].
     pose proof (op_publish_wq FUEL r w) as Hq. destruct (op_publish FUEL r w) as [w1 o]. cbn [fst] in Hq.
-    cbn [w_sess upd_log]. rewrite record_op_sess. eapply Inv_wq; eassumption.
-  - destruct (negb (w_conn w)); [exact H|].
+    apply wq_log. eapply wq_trans; [exact Hq|]. apply wq_same. apply record_op_same.
+  - destruct (negb (w_conn w)); [apply wq_log, wq_refl|].
     pose proof (op_subscribe_wq FUEL topics ps w) as Hq. destruct (op_subscribe FUEL topics ps w) as [w1 o]. cbn [fst] in Hq.
-    cbn [w_sess upd_log]. rewrite record_op_sess. eapply Inv_wq; eassumption.
-  - destruct (negb (w_conn w)); [exact H|].
+    apply wq_log. eapply wq_trans; [exact Hq|]. apply wq_same. apply record_op_same.
+  - destruct (negb (w_conn w)); [apply wq_log, wq_refl|].
     pose proof (op_unsubscribe_wq FUEL topics ps w) as Hq. destruct (op_unsubscribe FUEL topics ps w) as [w1 o]. cbn [fst] in Hq.
-    cbn [w_sess upd_log]. rewrite record_op_sess. eapply Inv_wq; eassumption.
-  - destruct (negb (w_conn w)); [exact H|].
+    apply wq_log. eapply wq_trans; [exact Hq|]. apply wq_same. apply record_op_same.
+  - destruct (negb (w_conn w)); [apply wq_log, wq_refl|].
     pose proof (op_disconnect_wq FUEL d w) as Hq. destruct (op_disconnect FUEL d w) as [w1 o]. cbn [fst] in Hq.
-    cbn [w_sess upd_log]. eapply Inv_wq; eassumption.
-  - destruct (negb (w_conn w)); [exact H|].
-    pose proof (op_drive_wq FUEL w) as Hq. destruct (op_drive FUEL w) as [w1 o]. cbn [fst] in Hq.
-    cbn [w_sess upd_log]. eapply Inv_wq; eassumption.
-  - destruct (negb (w_conn w)); [exact H|].
-    pose proof (op_poll_wq FUEL w) as Hq. destruct (op_poll FUEL w) as [w1 o]. cbn [fst] in Hq.
-    cbn [w_sess upd_log]. eapply Inv_wq; eassumption.
-  - destruct (negb (w_conn w)); [exact H|].
-    pose proof (op_recv_wq FUEL w) as Hq. destruct (op_recv FUEL w) as [w1 o]. cbn [fst] in Hq.
-    cbn [w_sess upd_log]. eapply Inv_wq; eassumption.
-  - cbn [w_sess upd_log]. rewrite feed_sess. exact H.
-  - exact H.
-  - exact H.
-  - destruct (negb (w_conn w)); [exact H|]. cbn [w_sess upd_log w_hd upd_live upd_sess]. now apply Inv_hd.
-  - exact H.
-  - cbn [w_sess upd_log upd_sess]. apply Inv_pid; [exact H|].
-    unfold id_ok. pose proof (N.mod_upper_bound pid 65536 ltac:(lia)).
-    destruct (N.eqb_spec (pid mod 65536) 0); lia.
+    apply wq_log. exact Hq.
+  - destruct (negb (w_conn w)); [apply wq_log, wq_refl|].
+    pose proof (op_drive_wq FUEL w) as Hq. destruct (op_drive FUEL w) as [w1 o]. cbn [fst] in Hq. apply wq_log. exact Hq.
+  - destruct (negb (w_conn w)); [apply wq_log, wq_refl|].
+    pose proof (op_poll_wq FUEL w) as Hq. destruct (op_poll FUEL w) as [w1 o]. cbn [fst] in Hq. apply wq_log. exact Hq.
+  - destruct (negb (w_conn w)); [apply wq_log, wq_refl|].
+    pose proof (op_recv_wq FUEL w) as Hq. destruct (op_recv FUEL w) as [w1 o]. cbn [fst] in Hq. apply wq_log. exact Hq.
+  - apply wq_log. apply wq_same. apply feed_same.
+  - apply wq_log. apply wq_same. split; reflexivity.
+  - apply wq_log. apply wq_same. split; reflexivity.
+  - destruct (negb (w_conn w)); [apply wq_log, wq_refl|]. apply wq_log. apply hd_wq.
+  - apply wq_log. apply wq_same. split; reflexivity.
+  - destruct (w_conn w); [apply wq_log, wq_refl|]. apply wq_log.
+    eapply wq_step; [wsimpl; apply SS_setpid | reflexivity | reflexivity].
+    pose proof (N.mod_upper_bound pid 65536 ltac:(lia)). destruct (N.eqb_spec (pid mod 65536) 0); lia.
 Qed.
 
-Lemma step_action_Inv : forall w a, Inv (w_sess w) -> Inv (w_sess (step_action w a)).
+Lemma step_action_wq : forall w a, wq w (step_action w a).
 Proof.
-  intros w a H. unfold step_action. destruct (halted w); [exact H|].
+  intros w a. unfold step_action. destruct (halted w); [apply wq_refl|].
   match goal with |- context [run_action a ?x] => set (w0 := x) end.
-  assert (H0 : Inv (w_sess w0)) by exact H.
-  pose proof (run_action_Inv a w0 H0) as H1.
-  destruct (halted (run_action a w0)); [exact H1 | exact H1].
+  assert (H0 : wq w w0) by (apply wq_same; split; reflexivity).
+  pose proof (run_action_wq a w0) as H1.
+  pose proof (wq_trans _ _ _ H0 H1) as H2.
+  cbv zeta. fold w0. destruct (halted (run_action a w0)); [exact H2|].
+  eapply wq_trans; [exact H2|]. apply wq_same. split; reflexivity.
+Qed.
+
+(* the complete run of any program under any script is a path of the session LTS whose environment flags are
+   recorded by the ghost flag *)
+Theorem run_case_wq : forall c, wq (init_world c) (run_case c).
+Proof.
+  intros c. unfold run_case. generalize (init_world c) as w. induction (c_prog c) as [|a t IH]; intros w; cbn [fold_left].
+  - apply wq_refl.
+  - eapply wq_trans; [apply step_action_wq | apply IH].
 Qed.
 
 (* Every world reachable by any program under any script satisfies the invariant. *)
 Theorem reachable_Inv : forall c, Inv (w_sess (run_case c)).
+Proof. intros c. eapply Inv_wq; [apply run_case_wq|]. cbn [init_world w_sess]. apply Inv_init. Qed.
+
+Corollary reachable_ids : forall c : case,
+  NoDup (ids (s_ob (w_sess (run_case c)))) /\
+  Forall (fun i => 1 <= i <= 65535) (ids (s_ob (w_sess (run_case c)))).
+Proof. intros c. pose proof (reachable_Inv c) as [[_ _ _ _ N F] _ _]. exact (conj N F). Qed.
+
+Corollary allocator_total : forall s s' id,
+  OInv (s_ob s) -> id_ok (s_pid s) -> next_packet_id s = (s', id) -> id <> 0.
 Proof.
-  intros c. unfold run_case.
-  assert (G : forall prog w, Inv (w_sess w) -> Inv (w_sess (fold_left step_action prog w))).
-  { induction prog as [|a t IH]; intros w H; cbn [fold_left]; [exact H|]. apply IH. now apply step_action_Inv. }
-  apply G. cbn [init_world w_sess]. apply Inv_init.
+  intros s s' id H1 H2 H3. destruct (next_packet_id_fresh s s' id H1 H2 H3) as [Hok _].
+  unfold id_ok in Hok. lia.
+Qed.
+
+(* ---------- the Receive Maximum invariant on every reachable world (C06) ---------- *)
+Lemma spath_Q : forall s ls s', spath s ls s' -> Inv s -> Q s -> forallb label_ok ls = true -> Inv s' /\ Q s'.
+Proof.
+  intros s ls s' H. induction H as [s|s l s1 ls s2 Hs Hp IH]; intros I Hq Hl; [split; assumption|].
+  cbn [forallb] in Hl. apply andb_true_iff in Hl. destruct Hl as [Hl1 Hl2].
+  apply IH; [eapply Inv_step; eassumption | eapply Q_step; eassumption | exact Hl2].
+Qed.
+
+Theorem reachable_Q : forall c, w_envok (run_case c) = true -> Q (w_sess (run_case c)).
+Proof.
+  intros c He. destruct (run_case_wq c) as [b [[ls [Hp Hf]] Hb]].
+  cbn [init_world w_envok] in Hb. rewrite He in Hb.
+  assert (Hbt : b = true) by (destruct b; [reflexivity|discriminate]). rewrite Hbt in Hf.
+  assert (I0 : Inv (w_sess (init_world c))) by (cbn [init_world w_sess]; apply Inv_init).
+  assert (Q0 : Q (w_sess (init_world c))).
+  { unfold Q, unresolved_publishes.
+    cbn [init_world w_sess session_new s_rt s_ob rt_new ob_new ob_ret ob_rel ob_buf rt_quota rt_maxquota filter glen]. lia. }
+  exact (proj2 (spath_Q _ _ _ Hp I0 Q0 Hf)).
 Qed.
